@@ -21,7 +21,8 @@ CLAIMS = {
          "global ids (run by the extracted verified checker on the package dumped from the implementation on every run) implies that every vector/block/row payload "
          "is delivered from its owner; reverse exchange = fold of the caller's reduction over exactly the routed contributions; with + it is the transpose of the forward "
          "exchange. Tie: dumped ParComm packages (direct, with on-process map, derived by column filtering) checked by the extracted checkers, construction model "
-         "compared with the dump, forward/reverse buffers (int/double/block, sum/max/select) compared with model and with the owners' values.",
+         "compared with the dump, forward/reverse buffers (int/double/block, sum/max/select) compared with model and with the owners' values; sparse-row payloads "
+         "(with values, pattern only through both interfaces) and the reverse row exchange compared with the owners' rows.",
          NOTE + "Package construction theorem (build_world satisfies the checkers for all inputs) not yet proved: the checker runs on every dumped package instead.",
          "Coq proof (naturality/homomorphism) + verified checker on implementation dumps"),
 }
